@@ -605,6 +605,66 @@ fn script_cases() -> Vec<ScriptCase> {
             &["args[1]"],
         );
     }
+    // every built-in the manual lists (docs/src/builtins/README.md, read at run time): an
+    // assignment prefixed to one the manual calls special — the POSIX list and its alias `source` —
+    // persists, one prefixed to any other built-in does not
+    {
+        let readme = std::fs::read_to_string("/repo/docs/src/builtins/README.md").unwrap_or_default();
+        let mut special: Vec<String> = vec![];
+        let mut in_special = false;
+        for line in readme.lines() {
+            if line.starts_with("### ") {
+                in_special = line.contains("Special built-ins");
+            }
+            if in_special {
+                if let Some(rest) = line.strip_prefix("- [`") {
+                    special.push(rest.split('`').next().unwrap().to_string());
+                }
+                if line.contains("[`source`]") && line.contains("alias for `.`") {
+                    special.push("source".into());
+                }
+            }
+        }
+        assert!(special.len() >= 15, "could not read the list of special built-ins from the manual: {special:?}");
+        for (name, line) in [
+            (".", "x=1 . /tmp/empty"),
+            ("source", "x=1 source /tmp/empty"),
+            (":", "x=1 :"),
+            ("break", "for i in 1; do x=1 break; done"),
+            ("continue", "for i in 1; do x=1 continue; done"),
+            ("eval", "x=1 eval :"),
+            ("exec", "x=1 exec"),
+            ("export", "x=1 export y"),
+            ("readonly", "x=1 readonly z"),
+            ("return", "f() { x=1 return; }; f"),
+            ("set", "x=1 set -- a"),
+            ("shift", "x=1 shift 0"),
+            ("times", "x=1 times >/dev/null"),
+            ("trap", "x=1 trap - USR1"),
+            ("unset", "x=1 unset nosuch"),
+            ("alias", "x=1 alias >/dev/null"),
+            ("bg", "x=1 bg 2>/dev/null"),
+            ("cd", "x=1 cd ."),
+            ("command", "x=1 command :"),
+            ("fg", "x=1 fg 2>/dev/null"),
+            ("getopts", "x=1 getopts a v"),
+            ("jobs", "x=1 jobs"),
+            ("kill", "x=1 kill -l >/dev/null"),
+            ("read", "x=1 read v </dev/null"),
+            ("type", "x=1 type : >/dev/null"),
+            ("ulimit", "x=1 ulimit >/dev/null"),
+            ("umask", "x=1 umask >/dev/null"),
+            ("unalias", "x=1 unalias -a"),
+            ("wait", "x=1 wait"),
+            ("typeset", "x=1 typeset y"),
+            ("pwd", "x=1 pwd >/dev/null"),
+            ("true", "x=1 true"),
+            ("false", "x=1 false"),
+        ] {
+            let persists = special.iter().any(|s| s == name);
+            add(&format!("x=0; {line}; args \"$x\""), &[if persists { "args[1]" } else { "args[0]" }]);
+        }
+    }
     // ... but not when run via `command`
     add("x=0; x=1 command :; args \"$x\"", &["args[0]"]);
     add("x=0; x=1 command eval 'args $x'; args \"$x\"", &["args[1]", "args[0]"]);
